@@ -18,6 +18,7 @@ package main
 
 import (
 	"bytes"
+	"strconv"
 	"encoding/json"
 	"flag"
 	"fmt"
@@ -307,6 +308,16 @@ func rewriteFile(fset *token.FileSet, f *ast.File, info *types.Info, yields bool
 				}
 			}
 		case *ast.CallExpr:
+			if id, ok := n.Fun.(*ast.Ident); ok && id.Name == "make" && len(n.Args) == 2 {
+				if _, isChan := n.Args[0].(*ast.ChanType); isChan {
+					if lit, ok := n.Args[1].(*ast.BasicLit); ok && lit.Kind == token.INT {
+						if v, err := strconv.Atoi(lit.Value); err == nil && v >= 8 {
+							n.Args[1] = call("Cap", lit)
+							changed = true
+						}
+					}
+				}
+			}
 			if id, ok := n.Fun.(*ast.Ident); ok && id.Name == "close" && len(n.Args) == 1 {
 				if _, isBuiltin := info.Uses[id].(*types.Builtin); isBuiltin || info.Uses[id] == nil {
 					n.Fun = vsSel("Close")
